@@ -61,7 +61,7 @@ func c04(c *vc.Ctx) {
 	thorough := !c.Quick()
 	c.Rule = "G_simp: prelude (x=3 y=4 n=-2 i=1 j=2 arr=(5 6 7), associative m with integer values, s e p w strings, $1..$3) + ONE snippet + epilogue printing status and all variables; snippets = every expansion of: arithmetic expressions (atoms $x ${y} x 2 $n ${arr[$i]} arr[$i] $((x+1)) ($x) $1 [thorough: +14 more incl. ${arr[i]} ${m[$i]} \"$x\" ${x:-5} $x$y]; single atoms, 11 unary/paren forms, atom op atom over 15 operators, compact forms, ternaries, two-operator trees with all 4 parenthesisations over a smaller atom/operator set) in up to 21 contexts ($(( )), (( )), $[ ], ${s:E}, ${s:E:E}, ${arr[E]}, arr[E]=, ${m[E]}, m[E]=, let, nested $(( $(( )) )), arr[E] inside arithmetic, c-style for init/cond, if (( )), array element index, ${@:E}); 58 nested-subshell/command-substitution wrappers x 14 bodies (negation, background, redirection, pipeline, comment, here-doc, function-body and process-substitution variants); [[ ]] expressions: operands (quoted/unquoted params, empty, with space, glob, array elements, cmd-subst, escaped literal) under -n -z -e ! and 11 binary operators, each in 11 paren/negation wrappers, plus &&/|| combinations; double-quoted and $\"...\" literals = all strings of <=3 (quick) / <=4 (thorough; <=5 in the two plain contexts) tokens over {\\\\ \\$ \\` \\\" ' \\n a n $ space x} in up to 18 word contexts; hand-written edge shapes per rewrite; each program as bash and as posix (own prelude) with all clauses, as mksh/zsh/bats for clauses 1-2; plus the syntax test corpus (all 5 variants, clauses 1-2) and the interpreter test corpus (clauses 1-3, external commands disabled). Clauses: (1) Simplify's result == (dump with positions changed), for the first pass and for repeated passes up to a fixpoint; (2) for the printer configurations default (shfmt -s) and Minify (shfmt -mn): if the original tree prints and reparses to itself, so does the simplified tree; (3) interpreter stdout+status of the simplified tree == of the original tree; (4) bash stdout+status of the printed simplified tree == of the original source (skipped when printing the unsimplified tree already changes bash's behaviour, or bash cannot parse the original). distinct = distinct simplified trees that differ from their original"
 	c.Assumptions = []string{
-		"bash 5.2.15 is the oracle for clause (4); every text runs in its own subshell of a batch process through eval, stderr discarded, stdin empty",
+		"bash 5.2.15 is the oracle for clause (4); the texts of a batch are evaluated with eval one after the other in the main shell of one bash process (fork is very expensive on the machine), stderr discarded, stdin empty, with the variables/functions a program can leave behind unset in between; a text that terminates the shell is re-run alone in a subshell",
 		"variables referenced in arithmetic hold plain integers (decimal, one negative) by construction of the prelude",
 		"a round-trip or behaviour defect already present when printing the UNSIMPLIFIED tree is the printer's (C01/C02), not Simplify's, and is counted as skipped",
 	}
@@ -92,7 +92,7 @@ func c04RunBatch(c *vc.Ctx, ts []c04Case) []*vc.Fail {
 			texts = append(texts, t.Src)
 			for k := range c04Cfgs {
 				if w.ok0[k] && w.ok1[k] {
-					texts = append(texts, w.p0[k], w.p1[k])
+					texts = append(texts, w.p1[k])
 				}
 			}
 		}
@@ -103,6 +103,28 @@ func c04RunBatch(c *vc.Ctx, ts []c04Case) []*vc.Fail {
 		bres, err = c04Bash(texts, c04WorkDir())
 		if err != nil {
 			panic("bash batch: " + err.Error())
+		}
+		// where the simplified program behaves differently, also run the
+		// printed UNSIMPLIFIED tree to see whether printing alone is at fault
+		var more []string
+		for _, w := range works {
+			if w == nil || w.fail != nil || !w.needBash {
+				continue
+			}
+			for k := range c04Cfgs {
+				if w.ok0[k] && w.ok1[k] && bres[w.p1[k]] != bres[w.t.Src] {
+					more = append(more, w.p0[k])
+				}
+			}
+		}
+		if len(more) > 0 {
+			mres, err := c04Bash(more, c04WorkDir())
+			if err != nil {
+				panic("bash batch: " + err.Error())
+			}
+			for k, v := range mres {
+				bres[k] = v
+			}
 		}
 	}
 	out := make([]*vc.Fail, len(ts))
@@ -204,12 +226,15 @@ func c04Go(c *vc.Ctx, ws *synt.Workspace, t c04Case) *c04Work {
 	r0 := oracle.RunInterpFile(f0, opts)
 	r1 := oracle.RunInterpFile(f, opts)
 	c.Count("interp_pairs_compared", 1)
+	if os.Getenv("C04_SNIP") != "" {
+		fmt.Printf("[%s] simplified: %q\n  interp orig: %d %q %s\n  interp simp: %d %q %s\n", t.Variant, c04Body(w.p1[0]), r0.Status, r0.Stdout, r0.Fatal, r1.Status, r1.Stdout, r1.Fatal)
+	}
 	if r0.Stdout != r1.Stdout || r0.Status != r1.Status || r0.Panicked != r1.Panicked || (r0.Fatal == "") != (r1.Fatal == "") {
 		w.fail = &vc.Fail{Key: w.key + " interp", Msg: fmt.Sprintf("[%s] %s: interpreter gives status=%d stdout=%q, after Simplify (%s) status=%d stdout=%q", t.Variant, shortSrc(c04Snippet(t)), r0.Status, c04Trim(r0.Stdout), shortSrc(c04Body(w.p1[0])), r1.Status, c04Trim(r1.Stdout)),
 			Detail: map[string]any{"orig": r0, "simplified": r1, "printed": w.p1[0]}}
 		return w
 	}
-	if t.Kind == 1 {
+	if t.Kind == 1 && t.Variant == "bash" {
 		w.needBash = true
 	}
 	return w
@@ -218,6 +243,9 @@ func c04Go(c *vc.Ctx, ws *synt.Workspace, t c04Case) *c04Work {
 func c04JudgeBash(c *vc.Ctx, w *c04Work, bres map[string]c04Res) *vc.Fail {
 	t := w.t
 	b0 := bres[t.Src]
+	if os.Getenv("C04_SNIP") != "" {
+		fmt.Printf("  bash orig: %v\n  bash simp: %v / %v\n  bash printed-orig: %v / %v\n", b0, bres[w.p1[0]], bres[w.p1[1]], bres[w.p0[0]], bres[w.p0[1]])
+	}
 	if !strings.HasPrefix(b0.Out, "start\n") {
 		c.Count("skipped_bash_rejects_original", 1)
 		return nil
@@ -226,12 +254,12 @@ func c04JudgeBash(c *vc.Ctx, w *c04Work, bres map[string]c04Res) *vc.Fail {
 		if !w.ok0[k] || !w.ok1[k] {
 			continue
 		}
-		if bp := bres[w.p0[k]]; bp != b0 {
-			c.Count("skipped_printing_alone_changes_bash_behaviour", 1)
-			continue
-		}
 		c.Count("bash_pairs_compared", 1)
 		if b1 := bres[w.p1[k]]; b1 != b0 {
+			if bp := bres[w.p0[k]]; bp != b0 {
+				c.Count("skipped_printing_alone_changes_bash_behaviour", 1)
+				continue
+			}
 			return &vc.Fail{Key: w.key + " bash " + cfg.String(), Msg: fmt.Sprintf("[%s] %s: bash gives status=%d stdout=%q, after Simplify printed with %s (%s) status=%d stdout=%q", t.Variant, shortSrc(c04Snippet(t)), b0.Status, c04Trim(b0.Out), cfg, shortSrc(c04Body(w.p1[k])), b1.Status, c04Trim(b1.Out)),
 				Detail: map[string]any{"orig": b0, "simplified": b1, "printed": w.p1[k]}}
 		}
